@@ -191,6 +191,10 @@ CANARIES = {
         ("overflow-escapes-id-generation", "stix2/v21/base.py", "text", ["            except OverflowError:\n", "            except ZeroDivisionError:\n"], "C17.recursion-converted"),
         ("raw-value-rendered-unguarded", "stix2/utils.py", "text", ["            try:\n                shown = str(data)\n            except RecursionError:\n                shown = \"<%s nested too deeply to show>\" % type(data).__name__\n", "            shown = str(data)\n"], "C17.recursion-converted"),
         ("store-reads-id-unguarded", "stix2/datastore/memory.py", "text", ['        if "id" not in stix_obj:\n', '        if False:\n'], "C17.raw-deref"),
+        ("filesystem-sink-reads-id-unguarded", "stix2/datastore/filesystem.py", "text", ["        if \"type\" not in stix_obj or \"id\" not in stix_obj:\n", "        if False:\n"], "C17.raw-deref"),
+        ("content-value-joined-into-a-path-unchecked", "stix2/datastore/filesystem.py", "text", ["                    os.path.basename(name) != name:\n", "                    False:\n"], "C17.raw-deref"),
+        ("empty-bundle-file-keyerror", "stix2/datastore/filesystem.py", "text", ["        if not stix_obj.get(\"objects\"):\n", "        if False:\n"], "C17.raw-deref"),
+        ("registry-indexed-by-the-content-version", "stix2/registry.py", "text", ["    cat_map = STIX2_OBJ_MAPS.get(stix_version)\n", "    cat_map = STIX2_OBJ_MAPS[stix_version]\n"], "C17.raw-deref"),
     ],
     "C18": [
         ("own-filters-not-forwarded", "stix2/datastore/__init__.py", "delete-call-stmt", ["CompositeDataSource.query", "all_filters.add(self.filters)"], "C18.member-forward"),
